@@ -301,8 +301,17 @@ func C11(r *ev.Run) {
 		{Name: "SinkInvoke/local", Opt: tlc.Options{Module: "MCSinkInvoke", Config: "SinkInvoke_local.cfg", Timeout: 5 * time.Minute, Workers: 4}},
 		{Name: "SinkInvoke/shared", Opt: tlc.Options{Module: "MCSinkInvoke", Config: "SinkInvoke_shared.cfg", Timeout: 5 * time.Minute, Workers: 1}},
 	}
-	if !runMCParallel(r, jobs, 2) {
+	for _, v := range [][2]string{{"shared-event", "OwnEvent"}, {"shared-data", "OwnData"}, {"shared-tid", "OneInCrit"}} {
+		jobs = append(jobs, &MCJob{Name: "SinkInvoke/" + v[0], Opt: tlc.Options{Module: "MCSinkInvoke", Config: "SinkInvoke_" + v[0] + ".cfg", Timeout: 5 * time.Minute, Workers: 1}})
+	}
+	if !runMCParallel(r, jobs, 3) {
 		return
+	}
+	for k, inv := range []string{"OwnEvent", "OwnData", "OneInCrit"} {
+		if j := jobs[2+k]; j.Res == nil || !strings.Contains(j.Res.Violated, inv) {
+			r.Inconclusive("self-test: TLC did not refute the variant " + j.Name)
+			return
+		}
 	}
 	if !jobs[0].Res.OK {
 		r.Inconclusive("SinkInvoke model refuted: " + jobs[0].Res.Describe())
@@ -381,6 +390,9 @@ func C11(r *ev.Run) {
 				r.Inconclusive("follow: " + err.Error())
 				ok = false
 				break
+			}
+			if len(stp) > 1 && stp[1] == "Enter" {
+				continue // entering the mutex block of the body is not a gate of its own
 			}
 			th := threadOfInvocation(st, stp[0])
 			if th == "" {
